@@ -318,6 +318,31 @@ MUTANTS = [
     ("c13-surface-polygon-unfix-base-ring", ["C13"], "U1", H,
      "        base_ring = kwargs.get(\"base_ring\")\n",
      ""),
+    # ---- SH7: projective objects
+    ("c04-reshape-aux-wrong-ndims", ["C04", "C11"], "SH7", P,
+     "                shape + old_aux_shape[-1*self.aux_ndims:]",
+     "                shape + old_aux_shape[-1*self.unit_ndims:]"),
+    ("c04-flatten-aux-wrong-unit", ["C04", "C11"], "SH7", P,
+     "            new_aux_shape = (-1,) + self.aux_data.shape[-1 * aux_unit:]",
+     "            new_aux_shape = (-1,) + self.aux_data.shape[-1 * unit:]"),
+    ("c04-astype-drops-aux-ndims", ["C04", "C11"], "SH7", P,
+     "        newobj = ProjectiveObject(new_proj, new_aux, new_dual,\n                                  unit_ndims=self.unit_ndims,\n                                  aux_ndims=self.aux_ndims,",
+     "        newobj = ProjectiveObject(new_proj, new_aux, new_dual,\n                                  unit_ndims=self.unit_ndims,\n                                  aux_ndims=self.unit_ndims,"),
+    ("c04-shape-wrong-ndims", ["C04"], "SH7", P,
+     "        return self.proj_data.shape[:-1 * self.unit_ndims]",
+     "        return self.proj_data.shape[:-1]"),
+    ("c16-affine-coords-delete-axis", ["C16", "C04"], "SH7", P,
+     "        _chart_index, axis=-1\n    )",
+     "        _chart_index, axis=-2\n    )"),
+    ("c16-projective-coords-size", ["C16", "C04"], "SH7", P,
+     "    result = utils.zeros(coords.shape[:-1] + (coords.shape[-1] + 1,),",
+     "    result = utils.zeros(coords.shape[:-1] + (coords.shape[-1] + 2,),"),
+    ("c16-in-standard-chart-axis", ["C16", "C04"], "SH7", P,
+     "        return np.all(coord_signs == 1, axis=-1) | np.all(coord_signs == -1, axis=-1)",
+     "        return np.all(coord_signs == 1, axis=-1) | np.all(coord_signs == -1, axis=0)"),
+    ("c11-get-edges-returns-vertices", ["C11", "C04"], "SH7", P,
+     "        return PointPair(self.edges)",
+     "        return PointPair(self.vertices)"),
     # ---- C15
     ("c15-drop-reflection-guard", ["C15"], "R1", H,
      "        if (np.abs(eval_differences) > ERROR_THRESHOLD).any():\n            raise GeometryError(\"Not a reflection matrix\")\n",
